@@ -200,6 +200,10 @@ def run_batch(sh, ctx):
 			cores = rng.choice([None, 1, 2, 3, 8, 16])
 			progress = rng.random() < 0.4
 			out = qw.dir / f'out{ci}.{fmt}'
+			if ci % 2 == 1:
+				# the output path already holds the (much longer) results of an earlier run: the new results replace them
+				out.write_text(('query,predicted.name\n' + 'old_row,old taxon\n' * 400) if fmt == 'csv' else ('{"items": [' + ', '.join(['{"old": 1}'] * 4000) + ']}\n'))
+				ctx.count('query_runs_with_existing_larger_output_file')
 			dbvia = rng.choice(['-d', '-d', 'env', '--db'])
 			ctx.count(f'db_given_via:{dbvia}')
 			dbargs = [] if dbvia == 'env' else [dbvia, qw.db]
